@@ -187,7 +187,8 @@ public:
             return r;
         }
         Handle subscribe_lk(Handle h, const subscriber<T> *sub) {
-            auto r = subscribe_lk(sub, _regs[h]._pos);
+            //a waiting source already stands at the position of the next (not yet published) value
+            auto r = subscribe_lk(sub, std::min(_regs[h]._pos, _pos-1));
             return r;
         }
 
